@@ -159,6 +159,20 @@ CLAIMED["C07"] = dict(
          "history-level exactly-once not yet one Lean theorem.",
     design="§8 C07", technique="Lean 4 proof (per-step bookkeeping theorems, ack-names-accepted composition) + differential correspondence")
 
+CLAIMED["C05"] = dict(
+    text="Lean theorems for the steps guaranteed delivery consists of, each for every state: a message of ANY size accepted by send fits a "
+         "datagram by itself (C05_fits_alone, with the fragment split law of C06), the head of the outgoing queue is in the next datagram "
+         "built (C05_head_is_sent), a time-out of a RETRY_ON_TIMEOUT message re-queues it under its original message number and an "
+         "acknowledgement completes it once (C05_timeout_requeues, with C07), and what the peer's header names was accepted and is "
+         "delivered or already delivered (C07/C08/C04). Eventual delivery itself is a liveness statement under a fair (healed) schedule: "
+         "its composition is exercised on every run (size sweep around every fragmentation boundary at 8 MTUs x loss patterns, then a "
+         "healed network; every guaranteed payload must be at the peer and the sender's queues empty) - partial as a theorem. The "
+         "recorded finding (fragments are never re-sent individually while the receiver purges incomplete contexts) is a Lean witness "
+         "(C05_fragment_expiry_witness) and a KNOWN-FINDING.",
+    note=TRUST + "liveness is not one Lean theorem (partial); schedule fairness and keepAlive+2*delay < outgoingTimeout are assumptions of the "
+         "argument; UdpClient / ServerClientConnection send_guaranteed entry points are checked on the real code only.",
+    design="§8 C05", technique="Lean 4 proof (per-step progress lemmas, witness of the recorded defect) + differential correspondence with healed schedules")
+
 CLAIMED["C02"] = dict(
     text="Lean theorems for EVERY instantiation of the external functions (hello decoding, ECDSA verify, ECDH+HKDF, signing): the client "
          "changes its session key or becomes CONNECTED only if the data decoded as a server hello whose signed payload verifies under "
